@@ -27,7 +27,7 @@ def main(tier):
                                  'the regex engine is the reference model mirsym/rexmodel.py, not the regex crate',
                                  'HashSet<&str>::insert is an association-list model forking on key equality',
                                  'tree-sitter / tag scanner replaced as in C10; ASCII only; verdict independent of the modified flags'],
-                    must_cover=['clean', 'reported', 'mode:trim', 'mode:group', 'mode:plain'])
+                    must_cover=['clean', 'reported', 'two violating blocks in one file', 'mode:trim', 'mode:group', 'mode:plain'])
 
 
 if __name__ == '__main__':
